@@ -28,7 +28,7 @@ def parse(tok):
         t, r, tx, rx = tok[3:].split(":")
         f = lambda s: None if s == "N" else int(s)
         return "C", (kind, f(t), f(r), f(tx), f(rx))
-    if k in "ST":
+    if k in "STYM":
         return k, (None if tok[1:] == "N" else int(tok[1:]))
     if k in "AR":
         return k, int(tok[1:])
@@ -48,14 +48,16 @@ class CHECK(core.Check):
             "RedoTimeout=0.125 so that its default is on the dyadic grid): create with timeout/redo each of "
             "{not given, 0, negative, 1 tick .. 4 s}, start, then 5..60 steps of (advance; process) with the advance "
             "drawn per case from a style (fixed poll period, exactly / just below / just above the redo interval, "
-            "zero, random up to 2 intervals, occasional negative), interleaved send of new messages, receive, "
-            "finish/fail/run, restarts; ~6% malformed (start/send without a message, calls before create). "
+            "zero, random up to 2 intervals, occasional negative), interleaved send / transmit / message of new messages, receive, "
+            "finish/fail/run, restarts; three message alphabets, each with falsy members (base Packets incl. an empty one; "
+            "Packets that are empty until packed; plain payloads 0 / falsy objects / ints on a stack double) at every "
+            "position (constructor tx, start, mid-exchange, before a redo); ~6% malformed (start/send without a message, calls before create). "
             "Bounded-exhaustive: every (timeout, redo) pair of the 9x9 grid x 3 classes x 4 fixed schedules. "
             "Non-trivial = at least 3 process calls and at least one retransmission or one timeout failure; "
             "distinct by call sequence.")
     TRUSTED = ["correspondence: real exchanging.Exchange/Exchanger/Exchangent on stacking.Stack (tree + "
                "fixes/D22-exchange-redotimeout-nameerror.patch) vs Lean driver 'exchange' on the same calls; compared per "
-               "call: ids of the packets appended to stack.txPkts, exception class, .done, .failed",
+               "call: WHICH messages (by identity) were appended to stack.txPkts / stack.txMsgs, exception class, .done, .failed",
                "time on the grid 1/1024 s (CPython float arithmetic exact there); IEEE rounding on other grids not modelled",
                "a device is always given (process()/start() format self.device.name eagerly)"]
     PARTIAL = ["exact time only: schedules off the dyadic grid (e.g. Exchangent's own RedoTimeout = 0.1) depend on float "
@@ -113,14 +115,14 @@ class CHECK(core.Check):
         malformed = malformed_ok and rng.random() < 0.06
         if malformed and rng.random() < 0.3:
             ops.append(rng.choice(["P", "S1", "T2", "F"]))
-        tx0 = rng.choice(["N", "N", 1])
+        tx0 = rng.choice(["N", "N", 1, 0])
         ops.append(tok_create(kind, T, R, tx0, rng.choice(["N", 9])))
         if rng.random() < 0.2:
             ops.append("A%d" % rng.randrange(0, 600))
             ops.append("P")
         mid = 1
         if kind == "x":
-            ops.append("SN" if (malformed and rng.random() < 0.5) else "S%d" % mid)
+            ops.append("SN" if (malformed and rng.random() < 0.5) else "S%d" % (0 if rng.random() < 0.1 else mid))
         elif kind == "n":
             ops.append("SN" if (malformed and rng.random() < 0.5) else "S7")
         else:
@@ -132,9 +134,9 @@ class CHECK(core.Check):
             ops.append("A%d" % dt)
             ops.append("P")
             x = rng.random()
-            if x < 0.05:
+            if x < 0.07:
                 mid += 1
-                ops.append("T%d" % mid)
+                ops.append(rng.choice("TTYM") + str(0 if rng.random() < 0.15 else mid))
             elif x < 0.08:
                 ops.append("R%d" % rng.randrange(20))
             elif x < 0.09:
@@ -142,8 +144,8 @@ class CHECK(core.Check):
             elif x < 0.10:
                 ops.append("S%d" % mid if kind == "x" else "SN" if kind == "e" else "S3")
             elif malformed and x < 0.13:
-                ops.append(rng.choice(["TN", tok_create(kind, T, R)]))
-        return {"ops": ops}
+                ops.append(rng.choice(["TN", "YN", "MN", tok_create(kind, T, R)]))
+        return {"ops": ops, "msgs": rng.choice(["packet", "lazy", "plain"])}
 
     def generate(self, rng, n, tier):
         for _ in range(n):
@@ -161,9 +163,11 @@ class CHECK(core.Check):
                     r = R if isinstance(R, int) and R > 0 else DEF[kind][1]
                     sch = [r - 1, 1, r, r + 1, r - 1, r - 1, 2 * r, 3 * r + 1] + [r] * 6
                 ops = [tok_create(kind, T, R), {"x": "S1", "n": "S7", "e": "SN"}[kind]]
-                for dt in sch:
+                for i, dt in enumerate(sch):
                     ops += ["A%d" % dt, "P"]
-                yield {"ops": ops}
+                    if i == 3:      # a new, falsy-looking message in the middle of the exchange, by each of the three methods
+                        ops.append("TYM"[(len(sch) + (T if isinstance(T, int) else 0)) % 3] + "2")
+                yield {"ops": ops, "msgs": ["packet", "lazy", "plain"][(len(ops) + (R if isinstance(R, int) else 1)) % 3]}
 
     # ---- implementation
     def impl(self, case):
@@ -173,16 +177,55 @@ class CHECK(core.Check):
             RedoTimeout = 0.125
 
         classes = {"e": exchanging.Exchange, "x": exchanging.Exchanger, "n": Exchangent125}
-        stack = stacking.Stack()
-        device = devicing.Device(stack)
+        # three alphabets of messages, all with FALSY members (the code must test `is not None`, not truthiness):
+        #   packet: real Stack, base Packets; id 0 is an empty Packet (len 0)
+        #   lazy:   real Stack, Packets that are empty until the stack packs them on transmit
+        #   plain:  a minimal stack double, payloads 0 / falsy objects / ints (sequence-number style)
+        mode = case.get("msgs", "packet")
+
+        class LazyPacket(packeting.Packet):
+            def __init__(self, body, **kwa):
+                super(LazyPacket, self).__init__(**kwa)
+                self.body = body
+
+            def pack(self):
+                self.packed = bytearray(self.body)
+                return self.packed
+
+        class Quiet(object):
+            """a falsy message object"""
+            def __init__(self, mid): self.mid = mid
+            def __len__(self): return 0
+
+        class PlainStack(object):
+            name = "plain"
+            def __init__(self):
+                from ioflo.aid.timing import Stamper
+                self.stamper = Stamper(stamp=0.0)
+                self.txPkts, self.txMsgs = [], []
+            def transmit(self, pkt): self.txPkts.append(pkt)
+            def message(self, msg): self.txMsgs.append(msg)
+
+        stack = PlainStack() if mode == "plain" else stacking.Stack()
+        device = devicing.Device(stacking.Stack()) if mode == "plain" else devicing.Device(stack)
         pkts = {}
 
         def pkt(i):
             if i is None:
                 return None
             if i not in pkts:
-                pkts[i] = packeting.Packet(stack=stack, packed=str(i).encode("ascii"))
+                if mode == "plain":
+                    pkts[i] = 0 if i == 0 else (Quiet(i) if i % 2 else i)
+                elif mode == "lazy":
+                    pkts[i] = LazyPacket(str(i).encode("ascii"), stack=stack)
+                else:
+                    pkts[i] = packeting.Packet(stack=stack, packed=(b"" if i == 0 else str(i).encode("ascii")))
+                if not isinstance(pkts[i], int):
+                    pkts[i].mid = i
             return pkts[i]
+
+        def mid_of(x):
+            return x if isinstance(x, int) else x.mid
 
         ex, kind, out = None, None, []
         for tok in case["ops"]:
@@ -190,7 +233,7 @@ class CHECK(core.Check):
                 k, arg = parse(tok)
             except Exception:
                 return ["bad-op"]
-            mark = len(stack.txPkts)
+            mark, markm = len(stack.txPkts), len(stack.txMsgs)
             err = "ok"
             try:
                 if k == "C":
@@ -218,6 +261,10 @@ class CHECK(core.Check):
                     ex.process()
                 elif k == "T":
                     ex.send(pkt(arg))
+                elif k == "Y":
+                    ex.transmit(pkt(arg))
+                elif k == "M":
+                    ex.message(pkt(arg))
                 elif k == "R":
                     ex.receive(("rx", arg))
                 elif k == "F":
@@ -228,7 +275,7 @@ class CHECK(core.Check):
                     ex.run()
             except Exception as e:
                 err = "ERR " + type(e).__name__
-            queued = [int(p.packed) for p in list(stack.txPkts)[mark:]]
+            queued = [mid_of(p) for p in list(stack.txPkts)[mark:]] + [mid_of(m) for m in list(stack.txMsgs)[markm:]]
             flags = " d=- f=-" if ex is None else " d=%d f=%d" % (bool(ex.done), bool(ex.failed))
             out.append("%s %s%s" % (",".join(map(str, queued)) or "-", err, flags))
         return out or ["-"]
@@ -289,11 +336,12 @@ class CHECK(core.Check):
                 else:
                     started = False            # start raised (no message): no claim until a good start
                     t0 = last = None
-            elif k == "T":
+            elif k in "TYM":
                 if err is None:
                     latest = arg if arg is not None else latest
                     if queued != [latest]:
-                        return "send(%s) queued %s" % (arg, queued)
+                        return "%s(%s) queued %s, the latest message is %s" % (
+                            {"T": "send", "Y": "transmit", "M": "message"}[k], arg, queued, latest)
             elif k in "FXU":
                 done = True
             elif k == "P":
@@ -358,7 +406,7 @@ class CHECK(core.Check):
         ops = case["ops"]
         for i in range(len(ops)):
             if ops[i][0] != "C":
-                yield {"ops": ops[:i] + ops[i + 1:]}
+                yield dict(case, ops=ops[:i] + ops[i + 1:])
         for i in range(len(ops) - 1):
             if ops[i][0] == "A" and ops[i + 1] == "P":
-                yield {"ops": ops[:i] + ops[i + 2:]}
+                yield dict(case, ops=ops[:i] + ops[i + 2:])
